@@ -5,7 +5,7 @@ CONSTANTS
   T = 10
   D = 0
   MaxEvents = 4
-  MaxFails = 1
+  MaxFails = 0
   Backoff = FALSE
   Closed = TRUE
   ObserveCb = FALSE
